@@ -19,6 +19,7 @@
 
 #include <cstdint>
 #include <istream>
+#include <limits>
 
 #include <nop/status.h>
 
@@ -59,7 +60,16 @@ class StreamReader {
   }
 
   Status<void> Skip(std::size_t padding_bytes) {
-    stream_.seekg(padding_bytes, std::ios_base::cur);
+    // Extract and discard the bytes. Seeking does not work here: seeking past
+    // the end of the data only sets failbit, which ReturnStatus() does not
+    // report, a skip count above the range of the signed stream offset seeks
+    // backwards, and non-seekable streams cannot seek at all. ignore() sets
+    // eofbit when the stream ends before the requested count.
+    if (padding_bytes >= static_cast<std::size_t>(
+                             std::numeric_limits<std::streamsize>::max())) {
+      return ErrorStatus::StreamError;
+    }
+    stream_.ignore(static_cast<std::streamsize>(padding_bytes));
     return ReturnStatus();
   }
 
